@@ -110,6 +110,12 @@ def main():
     obs.append({"kind": "mono", "qs": [int(b) for b in qs.flatten()], "lo": lo, "hi": hi, "below": len(far), "above": len(far)})
   # ---- 16 bit: the codes at both ends, around the zero point and a stride through the range (not exhaustive), parameters and dtypes
   # exactly as the library produces them (codes as int16, as uniform_quantize returns them)
+  # 16-bit parameters of tiny and degenerate ranges (scale 1e-4 / 65535: beyond the reach of the 32-bit rational reference; the
+  # round-trip law on the integer codes is judged all the same)
+  for mn_, mx_ in ((0.0, 0.0), (0.0, 2e-4), (-1e-4, 1e-4), (-3e-5, 0.0), (-2e-4, 5e-5)):
+    for sym_ in (True, False):
+      zp_, sc_ = U.tensor_zp_scale_from_min_max(np.array([[mn_]], np.float32), np.array([[mx_]], np.float32), 16, sym_)
+      params16.append(({"sym": sym_, "tiny": True}, zp_, sc_))
   for v, zp, sc in params16:
     sym = v["sym"]
     lo, hi = -(2 ** 15) + (1 if sym else 0), 2 ** 15 - 1
